@@ -115,13 +115,21 @@ class _Exact:
         grid = np.unique(np.r_[np.geomspace(1e-12, 1e-3, 400), np.geomspace(1e-3, 150.0, 60001)])
         y = g(grid)
         y = np.where(np.isfinite(y), y, 0.0)
+        # narrow conditionals (short periods): refine around the mode so that the trapezoid rule stays accurate
+        m0 = grid[int(np.argmax(y))]
+        grid = np.unique(np.r_[grid, np.geomspace(max(m0 / 30.0, 1e-12), min(m0 * 30.0, 150.0), 200001)])
+        y = g(grid)
+        y = np.where(np.isfinite(y), y, 0.0)
         # Simpson-like accuracy via cumulative trapezoid on a very dense geometric grid
         c = np.r_[0.0, np.cumsum(0.5 * (y[1:] + y[:-1]) * np.diff(grid))]
         total = c[-1]
         # cross-check the normaliser with adaptive quadrature around the mode
         mode = grid[int(np.argmax(y))]
         v, _ = si.quad(g, 0, 150.0, points=sorted({mode * k for k in (0.25, 0.5, 0.8, 1.0, 1.25, 2.0, 4.0) if mode * k < 150.0}), limit=800, epsabs=0, epsrel=1e-10)
-        assert abs(v - total) <= 1e-5 * total, (v, total)
+        # the two quadratures agree to 1e-7 on ordinary conditionals; on very narrow ones (short periods) they differ by a
+        # few 1e-4 - their disagreement is carried as the reference's own error and added to every tolerance
+        self.last_ref_err = abs(v - total) / total
+        assert self.last_ref_err <= 1e-3, (v, total)
         return (lambda x: np.interp(np.asarray(x, float), grid, c / total)), (lambda p: np.interp(np.asarray(p, float), c / total, grid))
 
 
@@ -389,7 +397,7 @@ def _t_csample(task, T):
         return
     T.check(len(s) == n, G, case, "csample.size: n samples are returned", f"{len(s)} of {n}", inp)
     if len(s):
-        eps = dkw_eps(len(s))
+        eps = dkw_eps(len(s)) + (getattr(ex, "last_ref_err", 0.0) if dim == 0 else 0.0)
         dist = ks_distance(s, cdf)
         Fmax, Fmin = float(cdf(np.max(s))), float(cdf(np.min(s)))
         T.check(dist <= eps, G, case, "csample.dkw: conditional samples follow the conditional density without truncating its tails",
@@ -447,6 +455,32 @@ def _t_ccdf(task, T):
     except Exception:
         T.check(False, G, case, f"c{kind}.dkw: the call succeeds", f"given={given!r}: raised {last_line()}", inp)
     T.key(("c" + kind, tag, dim, task["level_name"], repr(probs), repr(ms)))
+
+
+def _t_ccdf_mixed(task, T):
+    G = "conditional_cdf / conditional_icdf"
+    ms, tag, dim = task["model"], task["tag"], int(task["dim"])
+    _seed_global(task["seed"])
+    base, t, tr = _build(ms)
+    ex = _Exact(ms)
+    case = task["case"]
+    givens = [_given_value(ex, dim, float(lv)) for lv in task["levels"]]
+    xs = []
+    for g in givens:
+        _, icdf = _cond_cdf(ex, dim, g)
+        xs.append(float(np.asarray(icdf(np.array([0.5])), float)[0]))
+    inp = dict(task, givens=givens, xs=xs)
+    try:
+        with warnings.catch_warnings():
+            warnings.simplefilter("ignore")
+            got = np.asarray(t.conditional_cdf(np.array(xs), dim, np.array(givens), random_state=_rs(task["rs"], task["seed"])), float)
+        eps = dkw_eps(100_000)
+        for k in range(len(xs)):
+            T.check(abs(got[k] - 0.5) <= eps, G, case, "ccdf.dkw: every row's conditional cdf follows the conditional density of ITS OWN conditioning value",
+                    f"row {k}: given={givens[k]:.6g}, x={xs[k]:.6g} (the exact conditional median): conditional_cdf {got[k]!r} (eps={eps:.4g})", inp)
+    except Exception:
+        T.check(False, G, case, "ccdf.dkw: the call succeeds", f"raised {last_line()}", inp)
+    T.key(("ccdf_mixed", tag, dim, repr(task["levels"]), repr(ms)))
 
 
 def _iform_probs(ex, coords):
@@ -532,7 +566,7 @@ def _t_repro(task, T):
     T.key(("repro", kind, tag, task["rs"]))
 
 
-_TASKS = {"vt": _t_vt, "triple": _t_triple, "pdf": _t_pdf, "cdf": _t_cdf, "sample": _t_sample, "csample": _t_csample, "ccdf": _t_ccdf, "iform": _t_iform, "repro": _t_repro}
+_TASKS = {"vt": _t_vt, "triple": _t_triple, "pdf": _t_pdf, "cdf": _t_cdf, "sample": _t_sample, "csample": _t_csample, "ccdf": _t_ccdf, "ccdf_mixed": _t_ccdf_mixed, "iform": _t_iform, "repro": _t_repro}
 
 
 def _run_task(task):
@@ -589,6 +623,18 @@ def _tasks(rng, tier):
             k += 1
             tasks.append({"task": "csample", "case": f"csample/{tag}/dim=0/q={name}", "tag": tag, "model": ms, "dim": 0, "level": lv, "level_name": name,
                           "n": n_override.get((tag, 0, name), 10000 if extreme else 100000), "rs": rs_kinds[k % 3], "given_as": "float", "seed": S(), "cost": 3.0 if extreme else 1.0})
+    # narrow conditionals: Hs | Tz for very short periods lives on a few centimetres .. decimetres (the envelope of the
+    # rejection sampler has to be searched on the support that was found, not on a fixed coarse grid)
+    for tag in fixed:
+        for name, lv in (("3e-4", 3e-4), ("1e-4", 1e-4)):
+            k += 1
+            tasks.append({"task": "csample", "case": f"csample/{tag}/dim=0/q={name}", "tag": tag, "model": FIXED[tag], "dim": 0, "level": lv, "level_name": name,
+                          "n": 100000, "rs": rs_kinds[k % 3], "given_as": "float", "seed": S(), "cost": 1.0})
+    # conditional cdf with DIFFERENT conditioning values in one call, the first one coming back (every row has to be
+    # judged against the conditional of its own row)
+    for tag in fixed:
+        tasks.append({"task": "ccdf_mixed", "case": f"ccdf/{tag}/dim=1/mixed-givens", "tag": tag, "model": FIXED[tag], "dim": 1, "levels": [0.5, 0.99, 0.5, 0.9],
+                      "rs": "int", "seed": S(), "cost": 2.0})
     # random models of the same structure: a FIXED pool R1..R8 (drawn once from default_rng(16)), so that a case id
     # denotes the same model for every seed - whether the support search of the rejection sampler truncates a given
     # conditional depends discontinuously on the model parameters (0.7-grid of x_max), a per-seed model would turn
